@@ -149,6 +149,29 @@ class Engine:
         self.exec_s += time.time() - t0
         return r
 
+    def run_function(self, fname, make_args, mask, mask2=None, mode="f64", numeric=None, numeric2=None):
+        """Execute an arbitrary MIR function; make_args(series) -> list of argument values."""
+        t0 = time.time()
+        fn = self.fns.get(fname)
+        if fn is None:
+            raise ExecError(f"function {fname} not found in the MIR dump (renamed or removed?)")
+        ex = Executor(self.fns, self.solver, self.consts, natives.NATIVES, mode)
+        ex.numeric = numeric is not None
+        ex.normalizer = None
+        xs, box = self.make_series("x", mask, numeric)
+        ex.series = {"self": xs}
+        ex.assumptions.extend(box)
+        if mask2 is not None:
+            ys, box2 = self.make_series("y", mask2, numeric2)
+            ex.series["other"] = ys
+            ex.assumptions.extend(box2)
+        ex.outputs = None
+        ret = ex.exec_fn(fn, make_args(ex.series))
+        r = Run()
+        r.ret, r.obligations, r.assumptions, r.series, r.ex = ret, ex.obligations, ex.assumptions, ex.series, ex
+        self.exec_s += time.time() - t0
+        return r
+
     def ask(self, assertions, want_model=True):
         """Decide satisfiability of the conjunction. Comparison atoms are first brought to polynomial normal
         form (norm_atoms); a conjunction that the Boolean simplifier reduces to `false` (a literal and its
@@ -283,6 +306,29 @@ def value_differs(E, out, ref, assumptions, ex, stats=None):
     terms = resolve_ites(E, [norm_atoms(t) for t in (out.num, out.den, ref.num, ref.den)], assumptions)
     on, od, rn, rd = terms
     diff = smt.sub(smt.mul(on, rd), smt.mul(rn, od))
+    left = smt.ite_conditions([diff])
+    if len(left) == 1:
+        # one undecided condition c (e.g. `res != 0.` before a rescaling): split on it; on the side where an
+        # equation P = 0 holds, the difference is reduced modulo P (exact polynomial division)
+        c = left[0]
+        eqn = c if c.op == "=" else (c.args[0] if c.op == "not" and c.args[0].op == "=" else None)
+        parts = []
+        try:
+            rules = sqrt_rules(ex)
+            for val in (smt.TRUE, smt.FALSE):
+                d2 = smt.rebuild(diff, {c: val}, {})
+                p = poly.reduce_sqrt(poly.to_poly(d2, {}, rules), rules)
+                holds_eq = eqn is not None and ((c is eqn) == (val is smt.TRUE))
+                if holds_eq and p:
+                    P = poly.reduce_sqrt(poly.to_poly(smt.sub(eqn.args[0], eqn.args[1]), {}, rules), rules)
+                    p = poly.p_rem(p, P)
+                side = c if val is smt.TRUE else smt.not_(c)
+                parts.append(smt.and_(side, smt.ne(poly.from_poly(p), smt.R0)))
+            if stats is not None:
+                stats["split"] = stats.get("split", 0) + 1
+            return smt.or_(*parts)
+        except poly.NotPoly:
+            pass
     try:
         rules = sqrt_rules(ex)
         p = poly.to_poly(diff, {}, rules)
